@@ -170,7 +170,7 @@ def _find_nth(
     mask: Optional[np.ndarray] = None,
 ):
     out = np.full(ngroups, -1, dtype=np.int64)
-    seen = np.zeros(ngroups, dtype=np.int16)
+    seen = np.zeros(ngroups, dtype=np.int64)
     masked = mask is not None
     if n >= 0:
         rng = range(len(group_key))
@@ -201,7 +201,7 @@ def _find_first_or_last_n(
     forward: bool = True,
 ):
     out = np.full((ngroups, n), -1, dtype=np.int64)
-    seen = np.zeros(ngroups, dtype=np.int16)
+    seen = np.zeros(ngroups, dtype=np.int64)
     masked = mask is not None
     if forward:
         rng = range(len(group_key))
